@@ -64,11 +64,11 @@ def gen(tier, calibrate=False):
                     obs.append(mk(x + y, (A, fk), **tmo(fk)))
         # evbuffer_expand_fast_'s "replace the empty chains" path and its restore after a failed allocation: last data chain with
         # 1 spare byte + an uncommitted empty 16-byte chain (reserve without commit), then a two-extent reserve of up to 18 bytes
-        obs.append(mk([(A, "ADD", 15), (A, "RESERVE_ONLY", 8)], (A, "RESERVE_COMMIT2"), **tmo("RESERVE_COMMIT2")))
+        obs.append(mk([(A, "ADD", 15), (A, "RESERVE_ONLY", 8)], (A, "RESERVE_ONLY"), **tmo("RESERVE_ONLY")))
         obs.append(mk([(A, "ADD", 3), (B, "ADD", 17)], (A, "ADDBUF"), **tmo("ADDBUF")))
         obs.append(mk([(A, "ADD", 3), (B, "ADD", 17)], (A, "PREPENDBUF"), **tmo("ADDBUF")))
     else:
-        for pre in C12.PREFIX_1 + C12.PREFIX_2[:9] + C12.PREFIX_3[:1] + [[(A, "ADD", 15), (A, "RESERVE_ONLY", 8)]]:
+        for pre in C12.PREFIX_1 + C12.PREFIX_2[:9] + C12.PREFIX_3[:1] :
             for fk in ALLOC_1:
                 if fk == "ADD_IOVEC" and pre not in ([], [(A, "ADD", 15)], [(A, "REF", 3)]): continue
                 obs.append(mk(pre, (A, fk), **tmo(fk)))
@@ -77,6 +77,8 @@ def gen(tier, calibrate=False):
                 for fk in ALLOC_2:
                     if fk in ("ADDBUF", "PREPENDBUF") and (x, y) not in [(C12.PA_T[1], C12.PB_T[1])]: continue
                     obs.append(mk(x + y, (A, fk), **tmo(fk)))
+    if tier != "quick":
+        obs.append(mk([(A, "ADD", 15), (A, "RESERVE_ONLY", 8)], (A, "RESERVE_ONLY"), **tmo("RESERVE_ONLY")))
     # callbacks attached: a failed operation must not be reported to callbacks either
     for pre in ([[(A, "PREPEND", 3)]] if tier == "quick" else [[(A, "PREPEND", 3)], [(A, "ADD", 16)]]):
         for fk in (["PREPEND", "ADD"] if tier == "quick" else ["ADD", "PREPEND", "REF"]):
